@@ -189,10 +189,26 @@ def serve(ex, p, record, partial=False):
 
 
 def config_report(ex):
+    """-> ((other modules' report lines, {(service, protocols named on its line)}), ok).  The layout of a report
+    line is the daemon's business (slot numbers, pending counts, how a retired record is marked): of the xquery
+    lines only which known service is named together with which protocol word is kept."""
     n0 = len(ex.res.outputs)
     ok = ex.apply({"op": "config"})
     lines = sum((o or [] for o in ex.res.outputs[n0:]), [])
-    return sorted(l for l in lines if l.startswith("A ") and not l.startswith("A xquery :-")), ok
+    other, pairs = [], set()
+    names = {n.lower(): n for n in SVCS}
+    for l in lines:
+        if not l.startswith("A "):
+            continue
+        if not l.startswith("A xquery"):
+            other.append(l)
+            continue
+        toks = [t.strip("()[],;:'\"").lower() for t in l.split(" ")[2:]]
+        svc = [t.lstrip("-") for t in toks if t.lstrip("-") in names]
+        protos = tuple(sorted(t for t in toks if t in SVC_TYPES))
+        for n in svc:
+            pairs.add((n, protos))
+    return (sorted(other), pairs), ok
 
 
 class ReloadProfile:
@@ -281,9 +297,12 @@ class ReloadProfile:
         for v in crash:
             viol.append(Violation(("C17",) + tuple(p for p in v.props if p != "C17"), v.rule, v.detail))
         if not crash and not R["rejected"] and R["ok"] and F["ok"]:
-            if R["config"] != F["config"]:
+            # every (service, protocol) a fresh daemon reports must be reported after the reload too; what the
+            # reloaded daemon lists in addition may be retired records kept while clients still refer to them
+            # (whether a removed service is really out of use is decided by the probe conversations below)
+            if R["config"][0] != F["config"][0] or not F["config"][1] <= R["config"][1]:
                 viol.append(Violation("C17", "config-report", "after the reload the daemon reports %r, a fresh daemon on the new file reports %r" %
-                                      (R["config"], F["config"])))
+                                      ((R["config"][0], sorted(R["config"][1])), (F["config"][0], sorted(F["config"][1])))))
             else:
                 for i, (a, b) in enumerate(zip(R["convs"], F["convs"])):
                     if a != b:
